@@ -19,12 +19,14 @@ LEVEL_TEXT = ('static analysis: (D1) do_segmetrics interpreted with tagged stati
               'class, skip_low drops null-coverage bins first; (D2) the prediction interval is the 100*alpha/2 and 100*(1 - alpha/2) percentiles '
               '(exact terms in alpha); the bootstrap CI takes the same percentiles of the resampled weighted means, raises the number of '
               'bootstraps to ceil(2/alpha) when too few, returns the value itself for fewer than two bins and rejects alpha outside (0, 1); (D3) '
-              "every random draw of segmetrics.py is dominated by a constant seed (through the private helper's only caller); (D4) all stores go "
-              'to a copy of the segments and only to new column names; (D5) z_prob = BH(2*cdf(-|log2 / sqrt(1 - weight)|)); do_bintest stores the'
-              ' residuals as an index-aligned Series (not positionally), drops off-target bins before the adjustment when asked, and returns '
-              'exactly the bins with adjusted p < alpha; p_adjust_bh, interpreted on all orderings of four p-values with and without ties (tied '
-              'p-values share the largest rank), equals the Benjamini-Hochberg step-up formula min(1, min_{j>=i} n p_(j) / j). Does not decide '
-              "numerical agreement of the individual statistics with reference implementations, nor that the CI lies inside the bins' range.")
+              "every random draw of segmetrics.py is dominated by a constant seed (through the private helper's only caller) and no draw comes "
+              'from a generator object shared between calls; (D4) all stores go to a copy of the segments and only to new column names; (D5) '
+              'z_prob = BH(2*cdf(-|log2 / sqrt(1 - weight)|)); do_bintest stores the residuals as an index-aligned Series (not positionally), '
+              'drops off-target bins before the adjustment when asked, and returns exactly the bins with adjusted p < alpha; a bin covered by two'
+              ' overlapping segments is tested once, with its first residual; p_adjust_bh, interpreted on all orderings of four p-values with and'
+              ' without ties (tied p-values share the largest rank), equals the Benjamini-Hochberg step-up formula min(1, min_{j>=i} n p_(j) / '
+              'j). Does not decide numerical agreement of the individual statistics with reference implementations, nor that the CI lies inside '
+              "the bins' range.")
 TECHNIQUE = "abstract interpretation with tagged statistic summaries (argument provenance), exact rational terms in alpha, seed-dominance rule, exact small-scope evaluation of Benjamini-Hochberg"
 
 SM = "cnvlib.segmetrics"
